@@ -50,12 +50,12 @@ FEATS_ALL = [
 
 
 class Ctx:
-    def __init__(self, built, prop, meta=False):
+    def __init__(self, built, prop, meta=False, expd=False):
         self.b = built
         self.prop = prop
         self.meta = meta
         self.events = []
-        self.g = extract_grammar(built.considered, built.start)
+        self.g = extract_grammar(built.considered, built.start, expansion_depthing=expd)
         self.decl = declared_grammar(list(built.classes.values()), built.start)
         self.impl0 = impl_grammar(self.g)
         self.mind = int(self.g.get_min_tree_depth())
@@ -279,6 +279,18 @@ def run_grammar(spec, prop, R, tier, batch, stats):
         cfg = {"k": "syn", "g": ctx.decl, "impl0": ctx.impl0, "feats": spec.get("feats", [])}
         batch.trace(spec["id"], ctx.events, cfg)
         stats["events"] += len(ctx.events)
+        if prop == "C11" and "source" not in spec:
+            # the same grammar counted in expansion-depthing mode (abstract layers, lists and base values cost a level)
+            try:
+                with time_limit(10):
+                    cx = Ctx(b, prop, meta=True, expd=True)
+            except Exception:
+                return
+            if cx.mind < 1000:
+                workload(cx, R, cx.mind + 2, ["grow", "pt"], ["tree", "ge", "dsge"], 2 if quick else 4, 2 if quick else 4)
+                batch.trace(spec["id"] + "/expansion", cx.events,
+                            {"k": "syn", "g": cx.decl, "impl0": cx.impl0, "feats": spec.get("feats", [])})
+                stats["events"] += len(cx.events)
     finally:
         b.dispose()
 
